@@ -164,6 +164,7 @@ type interp struct {
 	ideal   int // >0: evaluating a fact / assertion: ideal arithmetic, no obligations
 	quiet   int // >0: no events, no stats (inside fact evaluation)
 	depth   int
+	onStack map[*funcInfo]int // non-coroutine functions with a live activation (recursion monitor)
 
 	seen map[eventKey]int
 }
@@ -385,7 +386,12 @@ func (in *interp) run() {
 				if nt == nil || ca.Kind != "int" {
 					unsupp("argument %d of %q", i, call.Method)
 				}
-				args[i] = value{k: vkNum, n: nU(ca.Int & maxOfBits(nt.bits))}
+				raw := ca.Int & maxOfBits(nt.bits)
+				args[i] = value{k: vkNum, n: nU(raw)}
+				if nt.signed && raw>>(nt.bits-1) != 0 {
+					// two's complement of the parameter's width, as the C driver's cast does
+					args[i].n = nI(int64(raw | ^maxOfBits(nt.bits)))
+				}
 			case prm.typ.IsBool():
 				if ca.Kind != "bool" && ca.Kind != "int" {
 					unsupp("argument %d of %q", i, call.Method)
@@ -463,6 +469,10 @@ func (in *interp) lookupFunc(si *structInfo, name string) *funcInfo {
 func (in *interp) retString(fi *funcInfo, v value) string {
 	switch v.k {
 	case vkNum:
+		if v.n.b == nil && v.n.neg {
+			// the C driver prints (uint64_t)z: two's complement
+			return strconv.FormatUint(^v.n.u+1, 10)
+		}
 		return v.n.String()
 	case vkBool:
 		if v.n.isZero() {
@@ -551,13 +561,15 @@ func (in *interp) invoke(caller *frame, fn *funcInfo, this *object, args []value
 			}
 			nt := in.p.numTypeOf(prm.typ)
 			if args[i].n.cmp(nt.lo) < 0 || args[i].n.cmp(nt.hi) > 0 {
-				this.magic = magicDisabled
-				if fn.effect.Coroutine() {
+				// writeFuncImplArgChecks: a pure method's receiver is const and
+				// stays as it is; status results report the bad argument, other
+				// results are the zero value of their type.
+				if !fn.effect.Pure() {
+					this.magic = magicDisabled
+				}
+				if fn.effect.Coroutine() || fn.retStat {
 					return value{k: vkStatus, s: stBadArgument}
 				}
-				// Non-coroutines return the zero value. (With a non-empty
-				// result wuffs-c emits C that does not compile: see
-				// Program.CGenIssues.)
 				return in.zeroOut(fn)
 			}
 		}
@@ -587,6 +599,22 @@ func (in *interp) invoke(caller *frame, fn *funcInfo, this *object, args []value
 		return ret
 	}
 
+	// C01 "never recurses": a function entered while an activation of it is
+	// still on the call stack. The event is raised once per function; the
+	// re-entrant call is not executed (it returns the zero value), so that the
+	// run terminates whatever the program does.
+	if in.onStack == nil {
+		in.onStack = map[*funcInfo]int{}
+	}
+	if in.onStack[fn] > 0 {
+		if in.monitoring() {
+			in.event(Event{Prop: "C01", Kind: "recursion", Node: fn.recv.name + "." + fn.name, Line: fn.node.Line(),
+				Values: fmt.Sprintf("%s.%s entered while already active (call depth %d)", fn.recv.name, fn.name, in.depth)})
+		}
+		return in.zeroOut(fn)
+	}
+	in.onStack[fn]++
+	defer func() { in.onStack[fn]-- }()
 	fr := in.newFrame(fn, this, args)
 	fr.argSrc = argSrc
 	in.depth++
